@@ -60,14 +60,14 @@ def main(argv=None):
     ap.add_argument('--all', action='store_true')
     ap.add_argument('--selftest', action='store_true')
     ap.add_argument('--quiet', action='store_true')
-    a = ap.parse_args(argv)
+    a, rest = ap.parse_known_args(argv)
     try:
         seed = int(os.environ.get('VERIF_SEED', '0') or 0)
     except ValueError:
         seed = 0
     if a.selftest:
         from . import selftest
-        return selftest.main(sys.argv[sys.argv.index('--selftest') + 1:])
+        return selftest.main(([a.property] if a.property else []) + rest)
     if a.all:
         rc = 0
         with open(os.path.join(report.VERIF, 'MANIFEST.json')) as f:
